@@ -37,6 +37,7 @@ type IOSpec struct {
 	CloseErr bool     `json:"close_err,omitempty"`
 	EOFData  bool     `json:"eof_data,omitempty"` // deliver the final bytes together with io.EOF
 	NilBody  bool     `json:"nil_body,omitempty"`
+	NoBody   bool     `json:"no_body,omitempty"` // http.NoBody: how net/http represents an empty body (Content-Length 0)
 }
 
 var errIO = errors.New("injected read error")
@@ -353,7 +354,9 @@ func (x *X) makeInput(op *Op, b *Built) (any, func()) {
 			pu = &url.URL{Scheme: "http", Host: "example.test", Path: "/p", RawQuery: q}
 		}
 		req.URL = pu
-		if !io.NilBody && io.BodyKind != "none" {
+		if io.NoBody {
+			req.Body = http.NoBody
+		} else if !io.NilBody && io.BodyKind != "none" {
 			body = NewSimReader([]byte(op.IOBody(b, io.BodyKind)), io, x.Faults)
 			req.Body = body
 		}
